@@ -91,6 +91,44 @@ def miss_probability(kind, meas, variant, m, t, sigma2, stub_cov):
     return float(chi2.sf(alpha ** 2 * ratio.min(), m))
 
 
+def frozen_member_scenario(alg0, m, T, res, unit):
+    """PaVeBa: a member of P that is no longer useful is not sampled any more, so its region stays the one
+    built from its n0 samples.  Every time the displayed region of such a design CHANGES it is a new
+    event of the union bound, to be paid for with the law of a mean of n0 samples."""
+    from scipy.stats import chi2
+
+    sigma2, delta, K = 0.5, 0.1, 3
+    for n0 in (1, 5, 20):
+        alg = copy.deepcopy(alg0)
+        alg.delta = delta
+        alg.design_space.cardinality = K
+        alg.noise_var = sigma2
+        # grow the template to 3 designs is not needed: designs 0 (candidate) and 1 (frozen member)
+        alg.round = n0
+        alg.S, alg.P, alg.U = {0, 1}, set(), set()
+        alg.modeling()
+        alg.S, alg.P, alg.U = {0}, {1}, set()  # design 1 moved to P and is not useful: frozen with n0 samples
+        prev = stepmc.read_regions(alg, [1])[1]
+        extra = 0.0
+        for t in range(n0 + 1, min(T, 150) + 1):
+            alg.round = t
+            alg.modeling()
+            res["evaluations"] += 1
+            cur = stepmc.read_regions(alg, [1])[1]
+            changed = not (np.array_equal(cur[1], prev[1]) and np.array_equal(cur[2], prev[2]) and cur[3] == prev[3])
+            if changed:
+                lam = np.linalg.eigvalsh(cur[2])
+                extra += float(chi2.sf(cur[3] ** 2 * lam.min() * n0 / sigma2, m))
+                prev = cur
+        res["nontrivial"] += 1
+        core.bump(res, "frozen_member_scenarios")
+        if K * extra > delta:
+            return core.violation(PROPERTY, {"kind": "frozen-member-region-rebuilt", "alg": "PaVeBa"}, {"unit": list(unit), "cfg": ["frozen", n0]}, f"<= {delta}", K * extra,
+                                  f"PaVeBa m={m}: a member of P that stopped being sampled after {n0} rounds has its region rebuilt in later rounds with the current radius; "
+                                  f"paid for with the law of a mean of {n0} samples the union bound grows by {K * extra:.3g} > delta={delta}")
+    return None
+
+
 def run_unit(unit, only=None):
     variant, m, T, thorough, seed, covkind = unit
     core.import_vopy()
@@ -171,6 +209,11 @@ def run_unit(unit, only=None):
                 res["violations"].append(core.violation(PROPERTY, {"kind": "not-monotone-in-delta", "alg": variant}, {"unit": list(unit), "cfg": [sigma2, K, DELTAS[0]]},
                                                         "non-increasing in delta", scales_for_delta, f"{variant}: round-1 region size is not monotone in delta: {scales_for_delta}"))
                 return res
+    if variant == "PaVeBa" and only is None:
+        v = frozen_member_scenario(alg0, m, T, res, unit)
+        if v is not None:
+            res["violations"].append(v)
+            return res
     res["outcomes"].append(f"{variant}:{m}:{covkind}:{worst[0]:.3f}")
     core.bump(res, "configs")
     res["samples"].append({"variant": variant, "m": m, "rounds": T, "worst_total_over_delta": worst[0], "at_sigma2_K_delta": worst[1]})
@@ -179,6 +222,9 @@ def run_unit(unit, only=None):
 
 def replay_case(case):
     u = case["unit"]
+    if case["cfg"] and case["cfg"][0] == "frozen":
+        res = run_unit((u[0], u[1], u[2], u[3], u[4], u[5] if len(u) > 5 else "diag"))
+        return [v for v in res["violations"] if v["key"]["kind"] == "frozen-member-region-rebuilt"]
     res = run_unit((u[0], u[1], u[2], u[3], u[4], u[5] if len(u) > 5 else "diag"), only=case["cfg"])
     return res["violations"]
 
